@@ -18,7 +18,12 @@ fn cell(idx: u64, rec: &mut Rec) {
     let policy = [RedirectAuthHeaders::Never, RedirectAuthHeaders::SameHost][take(2)];
     let body_kind = take(3); // 0 none, 1 content-length, 2 chunked
     let v10 = take(2) == 1;
+    // 0: plain; 1: Expect: 100-continue answered at once by this 3xx (body methods); 2: no Location field
+    let variant = take(3);
     if v10 && !http10_method(method) {
+        return;
+    }
+    if variant == 1 && !needs_body(method) {
         return;
     }
     let mut cfg = ReqCfg::new(method, "http://a.test/start/here?x=1");
@@ -26,11 +31,43 @@ fn cell(idx: u64, rec: &mut Rec) {
         cfg.ver = Ver::V10;
     }
     cfg.orig.push(("authorization".into(), b"secret".to_vec()));
-    let f = match fast_to_recv(&cfg) {
-        Ok(f) => f,
-        Err(e) => return rec.fail("C15/setup", format!("{}: {}", cfg.describe(), e)),
+    if variant == 1 {
+        cfg.orig.push(("expect".into(), b"100-continue".to_vec()));
+    }
+    let mut stream = if variant == 2 {
+        format!("HTTP/1.1 {} Moved\r\nX-No: location\r\n", status).into_bytes()
+    } else {
+        format!("HTTP/1.1 {} Moved\r\nLocation: /next/place\r\n", status).into_bytes()
     };
-    let mut stream = format!("HTTP/1.1 {} Moved\r\nLocation: /next/place\r\n", status).into_bytes();
+    let f = if variant == 1 {
+        // the server answers the Expect request with this very response: straight to RecvResponse
+        use ureq_proto::client::flow::{Await100Result, SendRequestResult};
+        let r = (|| -> Result<_, String> {
+            let mut s = build_flow(&cfg).map_err(|e| format!("{:?}", e))?.proceed();
+            write_head_big(&mut s).map_err(|e| format!("{:?}", e))?;
+            let mut a = match s.proceed().map_err(|e| format!("{:?}", e))? {
+                Some(SendRequestResult::Await100(a)) => a,
+                _ => return Err("expected Await100".into()),
+            };
+            let n = a.try_read_100(&stream).map_err(|e| format!("{:?}", e))?;
+            if n != 0 || a.can_keep_await_100() {
+                return Err(format!("refusal not recognised: consumed {} keep {}", n, a.can_keep_await_100()));
+            }
+            match a.proceed().map_err(|e| format!("{:?}", e))? {
+                Await100Result::RecvResponse(r) => Ok(r),
+                _ => Err("refused request went on to send its body".into()),
+            }
+        })();
+        match r {
+            Ok(f) => f,
+            Err(e) => return rec.fail("C15/setup-expect", format!("{}: {}", cfg.describe(), e)),
+        }
+    } else {
+        match fast_to_recv(&cfg) {
+            Ok(f) => f,
+            Err(e) => return rec.fail("C15/setup", format!("{}: {}", cfg.describe(), e)),
+        }
+    };
     match body_kind {
         1 => stream.extend_from_slice(b"Content-Length: 3\r\n\r\nabc"),
         2 => stream.extend_from_slice(b"Transfer-Encoding: chunked\r\n\r\n3\r\nabc\r\n0\r\n\r\n"),
@@ -76,6 +113,16 @@ fn cell(idx: u64, rec: &mut Rec) {
     }
     rec.call();
     let nf = r.as_new_flow(policy);
+    if variant == 2 {
+        rec.cov("no-location/redirect-state-entered");
+        return match nf {
+            Err(_) => {}
+            Ok(v) => rec.fail("C15/missing-location-not-an-error", format!("{} {}: as_new_flow without a Location -> Ok({:?})", method, status, v.map(|f| f.method().to_string()))),
+        };
+    }
+    if variant == 1 {
+        rec.cov("expect-refused-by-3xx");
+    }
     let want = redirect_method(method, status);
     rec.ev(|| format!("{} {} policy={:?} body={} v10={} -> as_new_flow = {:?}, table says {:?}", method, status, policy, body_kind, v10, nf.as_ref().map(|o| o.as_ref().map(|f| f.method().to_string())), want));
     let kind = if status == 307 || status == 308 { "retain" } else { "other-3xx" };
@@ -98,13 +145,13 @@ impl Property for P {
         "C15"
     }
     fn rule(&self) -> String {
-        "exhaustive table: 9 methods x status 300..=399 x 2 auth policies x response body {none, Content-Length, chunked} x request version {1.1, 1.0 where the method exists}. Each cell runs a real exchange to the end and compares: redirect state entered <=> 3xx and not 304, Redirect.status() == status, as_new_flow outcome and new method == the table of the statement. class = (307/308 | other 3xx) x method x outcome.".into()
+        "exhaustive table: 9 methods x status 300..=399 x 2 auth policies x response body {none, Content-Length, chunked} x request version {1.1, 1.0 where the method exists} x {plain, Expect: 100-continue refused by this very 3xx, no Location field}. Each cell runs a real exchange to the end and compares: redirect state entered <=> 3xx and not 304, Redirect.status() == status, as_new_flow outcome and new method == the table of the statement. class = (307/308 | other 3xx) x method x outcome.".into()
     }
     fn assumptions(&self) -> Vec<String> {
         vec!["the table is restated from the property text in wire::redirect_method".into()]
     }
     fn workloads(&self, _tier: Tier) -> Vec<Workload> {
-        vec![Workload::new("table", 9 * 100 * 2 * 3 * 2, true, "full product; HTTP/1.0 cells for methods that do not exist in 1.0 are skipped")]
+        vec![Workload::new("table", 9 * 100 * 2 * 3 * 2 * 3, true, "full product; HTTP/1.0 cells for methods that do not exist in 1.0 are skipped")]
     }
     fn run_case(&self, _wl: &str, idx: u64, _seed: u64, rec: &mut Rec) {
         cell(idx, rec)
@@ -118,6 +165,8 @@ impl Property for P {
             ("retain/DELETE/not-followed".into(), 10),
             ("retain/GET/kept".into(), 10),
             ("304/cleanup".into(), 50),
+            ("no-location/redirect-state-entered".into(), 500),
+            ("expect-refused-by-3xx".into(), 500),
         ]
     }
 }
